@@ -39,7 +39,13 @@ type Parser struct {
 	line          int
 	blockHandlers map[string]blockHandlerFunc
 	blockNames    map[string]int // block name -> line of its definition in the template being parsed
+	depth         int            // nesting depth of the construct being parsed (expressions and tags)
 }
+
+// maxNestingDepth bounds how deeply expressions and tags may nest. The parser
+// (and later the renderer) recurses once per level; without a bound a source
+// of a few million "(" or "-" overflows the stack, which cannot be recovered.
+const maxNestingDepth = 1000
 
 type blockHandlerFunc func(*Parser) (Node, error)
 
@@ -57,6 +63,7 @@ func (p *Parser) Parse(source string) (Node, error) {
 	p.line = 1
 	p.tokenIndex = 0
 	p.blockNames = nil
+	p.depth = 0
 
 	// Initialize default block handlers
 	p.initBlockHandlers()
@@ -210,6 +217,13 @@ func processEscapeSequences(s string) string {
 // Parse the outer level of a template (text, print tags, blocks)
 func (p *Parser) parseOuterTemplate() ([]Node, error) {
 	var nodes []Node
+
+	// one level per enclosing tag body (if in for in block ...)
+	if p.depth >= maxNestingDepth {
+		return nil, fmt.Errorf("tags nested more than %d levels deep", maxNestingDepth)
+	}
+	p.depth++
+	defer func() { p.depth-- }()
 
 	for p.tokenIndex < len(p.tokens) && p.tokens[p.tokenIndex].Type != TOKEN_EOF {
 		token := p.tokens[p.tokenIndex]
@@ -440,6 +454,11 @@ func (p *Parser) parseSimpleExpression() (Node, error) {
 	if p.tokenIndex >= len(p.tokens) {
 		return nil, fmt.Errorf("unexpected end of template")
 	}
+	if p.depth >= maxNestingDepth {
+		return nil, fmt.Errorf("expression nested more than %d levels deep at line %d", maxNestingDepth, p.tokens[p.tokenIndex].Line)
+	}
+	p.depth++
+	defer func() { p.depth-- }()
 
 	token := p.tokens[p.tokenIndex]
 
